@@ -206,6 +206,8 @@ class Gen:
             return ["or"] + [self.bool_expr(sc, d - 1) for _ in range(rng.choice([2, 2, 3]))]
         if r < 0.95:
             return ["not", self.bool_expr(sc, d - 1)]
+        if sc.arrs and rng.random() < 0.5:
+            return self.bcall("<builtin>isnan", [["var", rng.choice(sorted(sc.arrs))]])     # any NaN in the array?
         return self.bcall("<builtin>isnan", [self.num_expr(sc, d - 1)])
 
     def arr_expr(self, sc, d, length):
@@ -446,6 +448,13 @@ class Gen:
             pre.append(["assign", v, None, ["num", hi], [], self.s()])
             sc.ints.append(v)
             hi_e = ["var", v]
+            if rng.random() < 0.4:
+                # ... and the lower bound too ('[i=lo..hi]' with both in variables)
+                lv = rng.choice([x for x in ["n", "m", "k0"] if x != v])
+                sc.kill(lv)
+                pre.append(["assign", lv, None, ["num", lo], [], self.s()])
+                sc.ints.append(lv)
+                lo_e = ["var", lv]
         sc2 = sc.copy()
         sc2.counters[c] = (lo, hi)
         loops = [[c, lo_e, hi_e]]
@@ -498,7 +507,7 @@ class Gen:
             rhs = term                      # last trip wins; a zero-trip loop leaves w alone
         return [["assign", w, None, rhs, [[c, ["num", lo], ["num", hi]]], self.s(rhs)]]
 
-    def op_stencil_pair(self, sc):
+    def op_stencil_pair(self, sc, persist=None):
         """Two looped element assignments with the same counter and bounds, one directly after the other; the
         second reads elements the first writes in OTHER iterations (reversed / shifted index)."""
         rng = self.rng
@@ -517,10 +526,59 @@ class Gen:
         second = ["sub", ["var", a], idx]
         if rng.random() < 0.5:
             second = ["+", second, ["*", ["num", 0.5], ["var", c]]]
+        if self.tag_calls or rng.random() < 0.3:
+            # the first loop calls a user function in every trip (a fault site per iteration) ...
+            first = ["+", self.ucall_scalar(sc, 1), ["var", c]]
         ops.append(["assign", a, ["var", c], first, [[c, ["num", 0], ["num", n]]], self.s(first)])
+        cands = [x for x, l in (persist or {}).get("arrs", {}).items() if l == n and x in sc.arrs]
+        if cands and rng.random() < 0.6:
+            # ... and the second loop, over the same range, updates a PERSISTENT array element by element from it
+            pa = rng.choice(cands)
+            upd = ["+", ["sub", ["var", pa], ["var", c]], ["*", ["var", "<dt>"], ["sub", ["var", a], ["var", c]]]]
+            ops.pop(0) if ops[0][1] == [b] else ops.pop(1)      # (no local b needed)
+            ops.append(["assign", pa, ["var", c], upd, [[c, ["num", 0], ["num", n]]], self.s(upd)])
+            sc.arrs[a] = n
+            return ops
         ops.append(["assign", b, ["var", c], second, [[c, ["num", 0], ["num", n]]], self.s(second)])
         sc.arrs[a] = n
         sc.arrs[b] = n
+        return ops
+
+    def op_extreme_array(self, sc, persist):
+        """An array holding infinities of both signs (and no NaN), or a NaN, tested with isnan():
+        'a[i] <- 1e308*(1 - i); b <- 10*a; if isnan(b): ... else: ...'."""
+        rng = self.rng
+        a, b = rng.sample(ARR_NAMES, 2)
+        for v in (a, b):
+            sc.kill(v)
+        c = rng.choice(self.counters)
+        big = ["num", 1e308]
+        elem = rng.choice([["*", big, ["-", ["num", 1], ["var", c]]],            # [1e308, 0, -1e308]
+                           ["*", big, ["-", ["var", c], ["num", 1]]],
+                           ["*", big, ["+", ["var", c], ["num", 1]]]])           # one sign only
+        ops = [["call", [a], "<builtin>array", [["num", 3]], {}, 0],
+               ["assign", a, ["var", c], elem, [[c, ["num", 0], ["num", 3]]], 0]]
+        how = rng.choice(["scale", "scale", "diff"])
+        if how == "scale":
+            ops.append(["assign", b, None, ["*", ["num", 10], ["var", a]], [], 0])       # +-inf, no NaN
+        else:
+            ops.append(["assign", b, None, ["-", ["*", ["num", 10], ["var", a]], ["*", ["num", 10], ["var", a]]], [], 0])
+        sc.arrs[a] = 3
+        sc.arrs[b] = 3
+        tgt = rng.choice(persist["nums"]) if persist else self.new_local(sc, LOCAL_NAMES)
+        if tgt in sc.arrs or tgt in sc.bools or tgt in sc.counters:
+            sc.kill(tgt)
+        self.ban_like("<cond>")
+        ops.append(["if", self.bcall("<builtin>isnan", [["var", b]]),
+                    [["assign", tgt, None, ["+", self.num_leaf(sc), ["num", 7]], [], 0]], [],
+                    [["assign", tgt, None, ["+", self.num_leaf(sc), ["num", 11]], [], 0]], 0])
+        if tgt not in sc.nums:
+            sc.nums.append(tgt)
+        if tgt in sc.ints:
+            sc.ints.remove(tgt)
+        # the arrays hold non-finite values: keep them out of later arithmetic
+        sc.kill(a)
+        sc.kill(b)
         return ops
 
     def op_flag_block(self, sc, persist):
@@ -724,10 +782,11 @@ class Gen:
                 new = self.op_elem_write(sc)
             elif r < 0.595:
                 new = self.op_scalar_loop(sc, persist)
-            elif r < 0.61:
+            elif r < 0.635:
                 q = rng.random()
-                new = (self.op_stencil_pair(sc) if q < 0.35 else
-                       self.op_flag_block(sc, persist) if q < 0.7 else self.op_computed_index(sc))
+                new = (self.op_stencil_pair(sc, persist) if q < 0.3 else
+                       self.op_flag_block(sc, persist) if q < 0.6 else
+                       self.op_extreme_array(sc, persist) if q < 0.72 else self.op_computed_index(sc))
             elif r < 0.69:
                 new = [self.op_call_stmt(sc, persist)]
             elif r < 0.79:
